@@ -14,12 +14,12 @@ import tempfile
 from mc import core, ir, pipeline
 
 PROP = "C13"
-KEYS = ["a1", "a2", "b1", "xx", "a1x"]
-KEYSETS = [list(c) for n in range(0, 6) for c in itertools.combinations(KEYS, n)]
+KEYS = ["a1", "a2", "b1", "xx", "a1x", "A1", "xa1"]
+KEYSETS = [list(c) for n in range(0, 5) for c in itertools.combinations(KEYS, n)]
 PATTERNS = [r"a\d", r"b\d", r"[ab]\d", r"\w+", r"a"]
 REGEX_LISTS = [list(c) for n in range(0, 3) for c in itertools.combinations(PATTERNS, n)]
-FIELD_LISTS = [[], ["m"], ["dict_field"], ["zz"]]
-POSITIONS = ["field_m", "field_dict_field", "list_elem", "dict_value", "top"]
+FIELD_LISTS = [[], ["m"], ["dict_field"], ["zz"], ["CamelField"], ["camelfield", "camel_field", "M"]]
+POSITIONS = ["field_m", "field_dict_field", "field_camel", "list_elem", "dict_value", "top"]
 SECOND = ["none", "other_object", "null"]
 
 
@@ -40,7 +40,7 @@ def _cases(tier):
             if len(ks) > (2 if tier == "quick" else 3):
                 continue
             for rl in [[], [r"a\d"], [r"a"], [r"[ab]\d", r"xx"]] if tier == "quick" else regs:
-                for fl in ([], ["m"]) if tier == "quick" else FIELD_LISTS:
+                for fl in ([], ["m"], ["CamelField"]) if tier == "quick" else FIELD_LISTS:
                     yield {"seam": "cli", "pos": pos, "keys": ks, "dkr": rl, "dkf": fl, "second": "none"}
 
 
@@ -54,6 +54,7 @@ def _samples(case):
     wrap = {
         "field_m": lambda x: {"m": x, "zz": 1},
         "field_dict_field": lambda x: {"dict_field": x, "zz": 1},
+        "field_camel": lambda x: {"CamelField": x, "zz": 1},
         "list_elem": lambda x: {"m": [x], "zz": 1},
         "dict_value": lambda x: {"m": {"a1": x, "a2": x}, "zz": 1},
         "top": lambda x: dict(x, zz=1),
@@ -230,7 +231,7 @@ def execute(case):
 
 def run(tier, seed):
     r = core.Run(PROP, tier, seed)
-    r.rule = ("all key sets over 5 keys (+empty) x 5 positions x regex lists (<=2 of 5 patterns) x 4 field-name lists x second-sample kinds at "
+    r.rule = ("all key sets of <=4 keys over 7 keys (+empty) x 6 positions x regex lists (<=2 of 5 patterns) x 6 field-name lists x second-sample kinds at "
               "the library seam; a sub-space at the CLI seam (anchored patterns); non-trivial = cases with at least one mapping object and "
               ">=2 model objects")
     r.bounds = {"tier": tier}
